@@ -952,6 +952,14 @@ class Executor(Generic[TContext]):
             abort = ensure_future(abort_signal.wait())
             try:
                 await wait({task, abort}, return_when=FIRST_COMPLETED)
+            except CancelledError:
+                # Cancelled from outside (e.g. because a sibling failed or the
+                # incremental results were closed): the wrapped awaitable must
+                # be cancelled as well, otherwise it would be orphaned.
+                task.cancel()
+                with suppress(BaseException):
+                    await task
+                raise
             finally:
                 if not abort.done():
                     abort.cancel()
